@@ -2,7 +2,7 @@
    in IRCP.InvPrims / IRCP.InvStep / IRCP.Reach.  Every ending (QUIT, EOF / reset, bad text,
    over-long line, pong timeout, KILL, DIE) goes through [teardown] in the model (Step.v). *)
 From IRC Require Import Str Wild Glob Parse Reply State Handlers Step.
-From IRCP Require Import InvDefs InvPrims InvStep Reach CloseP EndP.
+From IRCP Require Import InvDefs InvPrims InvStep Reach CloseP EndP CloseGlobal.
 From stdpp Require Import gmap.
 
 Section C06.
@@ -85,9 +85,21 @@ Theorem C06_quit : forall w i c n l msg w' o cl,
   users (sh w') = delete n (users (sh w)) /\ conns w' = delete i (conns w).
 Proof. exact (quit_effect cfg verify). Qed.
 
+(* EVERY WAY, one statement over every event after any history: whichever connection a step closes - the sender of QUIT, of an
+   over-long or ill-encoded line, a peer that closed, reset or timed out, a connection refused at the limit or after DIE, the
+   victim of an operator's KILL, everybody at DIE - has no connection record afterwards, owns no user, and every name on every
+   channel's roster (hence on every rank list: C04) belongs to a live user owned by somebody else *)
+Theorem C06_closed_leaves_nothing : forall w i e w' o cl j, Inv w -> step cfg verify w i e = Ok (w', o, cl) -> j ∈ cl ->
+  conns w' !! j = None /\
+  (forall n u, users (sh w') !! n = Some u -> u_conn u <> j) /\
+  (forall ch co n, chans (sh w') !! ch = Some co -> n ∈ dom (ch_users co) ->
+     exists u, users (sh w') !! n = Some u /\ u_conn u <> j).
+Proof. exact (closed_leaves_nothing cfg verify). Qed.
+
 End C06.
 
 Print Assumptions C06_teardown.
+Print Assumptions C06_closed_leaves_nothing.
 Print Assumptions C06_channel_after.
 Print Assumptions C06_no_trace.
 Print Assumptions C06_unregistered_end.
